@@ -77,6 +77,7 @@ impl Acc {
 
 struct Ctx<'a> {
     r: &'a Report,
+    mv: &'a retrysym::MinViolations,
     syms: &'a [Sym],
     policy: Policy,
     real: Arc<dyn RetryPolicy>,
@@ -117,11 +118,10 @@ fn case_json(cx: &Ctx, hist: &[usize]) -> Value {
 /// Visit the node `hist` (non-empty); `parent_ds` = decisions its parent recorded for hist[..len-1].
 /// `reach_only`: the prefix consisted of re-send decisions only (the loop can get here).
 fn visit(cx: &Ctx, acc: &mut Acc, hist: &mut Vec<usize>, parent_ds: &[Decision], reachable: bool) {
-    let r = cx.r;
     let (ds, complaints) = match vcore::catch(std::panic::AssertUnwindSafe(|| run_history(cx, hist))) {
         Ok(x) => x,
         Err(p) => {
-            r.violation(&format!("policy:{}:panic", cx.policy.name()), &format!("decide_should_retry panicked on {}: {p}", case_json(cx, hist)), case_json(cx, hist));
+            cx.mv.add(&format!("policy:{}:panic", cx.policy.name()), hist.len(), format!("decide_should_retry panicked on {}: {p}", case_json(cx, hist)), case_json(cx, hist));
             return;
         }
     };
@@ -135,7 +135,7 @@ fn visit(cx: &Ctx, acc: &mut Acc, hist: &mut Vec<usize>, parent_ds: &[Decision],
     }
     let d = *ds.last().unwrap();
     for c in complaints {
-        r.violation(&c.key, &format!("{} | case {}", c.text, case_json(cx, hist)), case_json(cx, hist));
+        cx.mv.add(&c.key, hist.len(), format!("{} | case {}", c.text, case_json(cx, hist)), case_json(cx, hist));
     }
     let resends_before = ds[..ds.len() - 1].iter().filter(|d| d.is_resend()).count();
     if resends_before > 0 {
@@ -175,7 +175,8 @@ fn replay(r: &Report, syms: &[Sym], case: &Value) {
         .iter()
         .map(|n| syms.iter().position(|s| Some(s.name.as_str()) == n.as_str()).unwrap_or_else(|| vcore::machinery_error("replay: unknown symbol")))
         .collect();
-    let cx = Ctx { r, syms, policy, real: retrysym::policy_of(policy), idem: case["idempotent"].as_bool().unwrap_or(false), cl0, l_all: 0, l_reach: 0 };
+    let mv = retrysym::MinViolations::default();
+    let cx = Ctx { r, mv: &mv, syms, policy, real: retrysym::policy_of(policy), idem: case["idempotent"].as_bool().unwrap_or(false), cl0, l_all: 0, l_reach: 0 };
     // judge every step of the history (the recorded case is the minimal failing one, its last step complains)
     for n in 1..=hist.len() {
         let (ds, complaints) = run_history(&cx, &hist[..n]);
@@ -219,13 +220,16 @@ fn main() {
     }
     let r_ref = &r;
     let syms_ref = &syms[..];
+    let mv = retrysym::MinViolations::default();
+    let mv_ref = &mv;
     vcore::par::for_each(jobs, 1, items.into_iter(), |(policy, idem, cl0, s)| {
-        let cx = Ctx { r: r_ref, syms: syms_ref, policy, real: retrysym::policy_of(policy), idem, cl0, l_all, l_reach };
+        let cx = Ctx { r: r_ref, mv: mv_ref, syms: syms_ref, policy, real: retrysym::policy_of(policy), idem, cl0, l_all, l_reach };
         let mut hist = vec![s];
         let mut acc = Acc::default();
         visit(&cx, &mut acc, &mut hist, &[], true);
         acc.flush(&cx);
     });
+    mv.flush(&r);
     // vacuity guards: the bounds of the statement must be attained by the real policies (else the
     // alphabet misses the branches that matter)
     for (p, want) in [(Policy::Default, 2u64), (Policy::Downgrading, 1), (Policy::Fallthrough, 0)] {
